@@ -47,11 +47,17 @@ TEXT = {
         '(HashWriterWrapper, ObjectWriter.__enter__/__exit__, add_streamed_object, add_object: key = digest of exactly the streamed '
         'bytes, published copy = those bytes) and the pack write step (_write_data_to_packfile: appended bytes = the object / a '
         'complete zlib stream of it, digest and size returned) hold for every content, chunking (short reads) and configuration; '
-        'thorough tier: the per-object steps of pack_all_loose and add_streamed_objects_to_pack. Bounded: every write path x '
+        'the metadata generator behind get_objects_meta / get_objects_stream_and_meta reports for every requested key exactly the '
+        'committed row or loose file of that key (or a miss) and, with streams, a stream whose content hashes to the key; thorough tier: the per-object steps of pack_all_loose and '
+        'add_streamed_objects_to_pack. Bounded: every write path x '
         'configuration x content class returns the digest and reads back whole/chunked/bulk (incl. lowered lookup thresholds).',
  'C02': 'Mixed. Proved: add_streamed_object / add_object add exactly one key with exactly the bytes and touch no other object; '
         '_clean_loose_objects removes exactly the requested loose files; thorough: pack_all_loose with the full frame invariant '
-        '(index only grows, loose files disappear only when indexed). Bounded: every view equals the ghost map after every step of '
+        '(index only grows, loose files disappear only when indexed), repack_pack (same keys indexed, rows of other packs '
+        'untouched, every indexed pack file exists); list_all_objects lists every indexed or loose key exactly once; the bulk '
+        'metadata generator answers every requested key exactly once, from the row / loose file of that key; clean_storage (no '
+        'duplicate files) unlinks only loose files whose key is in the committed index re-read after the listing; delete_objects '
+        'removes exactly the requested keys. Bounded: every view equals the ghost map after every step of '
         'seeded histories over all public operations and parameter combinations (incl. repack_pack of single packs followed by close).',
  'C03': 'Mixed. Proved: _write_data_to_packfile appends exactly the encoding of the object at the end of the pack; the every-change '
         'variant of add_streamed_objects_to_pack: every row inserted under the pack lock designates bytes inside the pack that '
@@ -68,16 +74,23 @@ TEXT = {
  'C07': 'Per-function proof, for all states and arguments, that read/seek/tell of every stream class (PackedObjectReader, '
         'LazyLooseStream, the zlib decompresser incl. _read_compressed and _seek_internal, CallbackStreamWrapper, ZeroStream) refine '
         'an in-memory binary file over the object bytes (position, returned values, no byte outside the object, rejected seeks leave '
-        'the position). The composition through Container.get_object_stream over all storage forms is bounded (random programs vs io.BytesIO).',
+        'the position). Composition step, also proved: every stream yielded by the bulk generator behind get_object_stream / '
+        'get_objects_stream_and_meta is, in the abstraction those contracts use, a stream in its initial state over exactly the '
+        'byte range of its committed row in the open pack file (or the loose file of the key), whose content has the reported key '
+        'as digest and the reported size; the decompresser is used exactly for compressed rows and its loose fallback is the copy of '
+        'the same key. Bounded on top: random read/seek/tell programs vs io.BytesIO over all storage forms through the public API.',
  'C09': 'Mixed. Proved: ObjectWriter.__exit__ keeps a correct existing copy (same inode, no second file), replaces a damaged one, '
         '_compute_hash_for_file returns the digest of the current file content (a memoised version fails), the every-change '
         'variant of add_streamed_objects_to_pack with no_holes. Bounded: histories with recurring contents (one row / file per key, '
         'no growth and no unreferenced bytes with no_holes).',
  'C10': 'Mixed. Proved: should_compress honours YES/NO/KEEP and leaves the stream position untouched, estimate_compression restores '
-        'the position, _write_data_to_packfile stores a complete zlib stream of the object iff asked. Bounded: flags, sizes, lengths, '
+        'the position, _write_data_to_packfile stores a complete zlib stream of the object iff asked; the bulk '
+        'metadata generator reports the size / compressed flag / stored length of the committed row. Bounded: flags, sizes, lengths, '
         'totals and bulk metadata after every pack/repack, chained modes.',
  'C12': 'Mixed. Proved: the hashing helpers used by validate (compute_hash_and_size, _compute_hash_for_file) return the digest and '
-        'length of exactly the bytes read. Bounded: validate() clean after every step; never clean after bit flips / index-field '
+        'length of exactly the bytes read; _validate_hashkeys_pack (for a pack whose indexed ranges are readable) reports exactly '
+        'the rows whose (inflated) bytes do not hash to their key and exactly the rows whose (inflated) length differs from the '
+        'recorded size, modifies nothing and closes the pack. Bounded: validate() clean after every step; never clean after bit flips / index-field '
         'perturbations / loose damage that change what is read.',
  'C13': 'Mixed. Proved: _get_pack_id_to_write_to returns the first pack at or above the cached id that is absent or below target and '
         'every skipped pack is full; lock_pack opens the pack in append mode at its end under an exclusive lock; '
@@ -89,21 +102,32 @@ TEXT = {
         'releases the lock when the body raises. Bounded: each intercepted I/O call raises in turn (EIO; opens also EACCES), the store '
         'is checked through a new handle and the operation re-run.',
  'C18': 'Mixed. Proved: safe_flush_to_disk, ObjectWriter.__exit__, lock_pack, _compute_hash_for_file leave no descriptor open; a '
-        'sized read of the decompresser never asks zlib for unbounded output. Bounded: /proc/self/fd census after every step and after close().',
+        'sized read of the decompresser never asks zlib for unbounded output; the bulk stream generator keeps exactly one file open '
+        'at every yield, closes the file of the previous item (and a lazily opened loose copy) before the next, and leaves nothing '
+        'open when it finishes or is abandoned by its consumer; close() / __exit__ release every SQLite connection of the handle '
+        'whatever sessions were open. Bounded: /proc/self/fd census after every step and after close().',
  'C08': 'Mixed. Proved: list_all_objects, started with ANY session state (none, clean, or a stale snapshot pinned before another '
         'handle committed), reads the committed index as it is after its loose listing and lists every indexed or loose key exactly '
         'once (paging by primary key complete). Bounded: sequential histories over up to 3 handles on one folder; every handle '
         '(whose snapshot earlier queries pinned; existence checks issued before and after listings) must answer exactly as the ghost map.',
  'C11': 'Mixed. Proved (effect order of repack_pack on the real body): a pack file is removed/unlinked only when no COMMITTED index row '
         'points into it, every commit publishes only rows lying inside flushed and synced bytes of an existing pack, the temporary '
-        'pack and the lock are gone at return, rows of other packs untouched. Bounded: delete returns exactly the existing requested '
+        'pack and the lock are gone at return, rows of other packs untouched; delete_objects (on a container without duplicate '
+        'files): exactly the loose files and rows of the requested keys disappear, everything else is untouched, the returned keys '
+        'are exactly the requested keys that existed, and the loose copies are gone before the index deletion is committed. Bounded: delete returns exactly the existing requested '
         'keys, others unchanged, stray duplicate files of several deleted keys removed; after a full repack every pack is the '
         'concatenation of its live ranges.',
- 'C16': 'Bounded run-time contract check on the real code: bulk = map(single) with the lookup thresholds lowered (requests with few and '
-        'many missing keys); pack/clean over n loose objects on both sides of the thresholds; merge helpers checked exhaustively over '
-        'all pairs of sorted unique sequences of a 6-element universe. Deductive contracts exist only as assumed summaries.',
+ 'C16': 'Mixed. Proved (for every request size, chunk size and both lookup strategies, on the real generator body): the bulk '
+        'metadata generator yields every requested key exactly once with the metadata of its committed row or loose file, whichever '
+        'of the IN-chunks / full-scan strategies is taken and however the retry after a concurrent pack goes; list_all_objects pages '
+        'through the whole index; clean_storage (on a container without duplicate files) removes every listed loose file whose key '
+        'is indexed and no other, under both strategies. The merge helper detect_where_sorted is proved on its real body for strictly increasing sequences of any '
+        'length (every element handed out exactly once, in order, correctly classified) - which is what its callee summary states; '
+        'chunk_iterator and _list_loose remain assumed summaries and are checked bounded: bulk = '
+        'map(single) with the lookup thresholds lowered (requests with few and many missing keys); pack/clean over n loose objects '
+        'on both sides of the thresholds; merge helpers exhaustively over all pairs of sorted unique sequences of a 6-element universe.',
 }
-CAT = {'C07': 'proof', 'C16': 'exploration'}
+CAT = {'C07': 'proof'}
 NA = {
  'C04': 'schedules of concurrent clients: contract-based deductive verification decides properties of one call or one data structure and '
         'is silent on interleavings; the sequential ordering facts the argument rests on (commit after close/sync, unlink after commit, '
